@@ -974,6 +974,74 @@ def run_sequences(ck: Check, drv: LeanDriver, n: int, r):
             ck.disagree({"kind": "sequence", "steps": encode_case(steps)}, ans, mine, "registry-sequence")
 
 
+# --------------------------------------------------------------------------- overlayRef inputs vs the model
+
+def run_overlay_inputs(ck: Check, drv: LeanDriver, n: int, r):
+    """a cached ValueFunction with odd input names, then a ResourceFunction with an `overlayRef` to it: which names
+    does the real `_prepare_overlays` report as missing (INPUTS_NAME_PATTERN, `None` names) vs the model"""
+    import re
+
+    import koreo_util as ku
+    from koreo import cache
+    from koreo.resource_function.prepare import INPUTS_NAME_PATTERN, prepare_resource_function
+    from koreo.value_function.structure import ValueFunction
+
+    setup_world()
+    reqs, keep = [], []
+    for i in range(n):
+        _dep_serial[0] += 1
+        name = f"dep{_dep_serial[0]}"
+        exprs = r.sample(ODD_INPUT_EXPRS, r.randint(1, 4))
+        vf_spec = {"return": {f"r{j}": "=" + e for j, e in enumerate(exprs)}}
+        res = impl_prepare("ValueFunction", vf_spec, via_cache=True, name=name)
+        vf = cache.get_resource_from_cache(resource_class=ValueFunction, cache_key=name)
+        if res["r"] != "prepared" or vf is None:
+            continue
+        keys = sorted(vf.dynamic_input_keys)
+        provided = r.sample(["x", "zone", "a", "y", "k", "opt", "items"], r.randint(0, 4))
+        ov = {"overlayRef": {"kind": "ValueFunction", "name": name}}
+        if provided:
+            ov["inputs"] = {g: "=inputs." + g for g in provided}
+        spec = {"apiConfig": {"apiVersion": "v1", "kind": "ConfigMap", "name": "n", "namespace": "ns"},
+                "resource": {"data": {"k": "v"}}, "overlays": [ov]}
+        ck.evaluated()
+        try:
+            got = ku.run(prepare_resource_function("uses-" + name, copy.deepcopy(spec)))
+        except Exception as e:  # noqa: BLE001
+            ck.violate({"kind": "sequence", "steps": [
+                {"resource": "ValueFunction", "via_cache": True, "name": name, "spec": vf_spec},
+                {"resource": "ResourceFunction", "spec": spec}]},
+                f"prepare_resource_function raised {type(e).__name__}: {str(e)[:100]}")
+            continue
+        if not isinstance(got, tuple):
+            continue
+        overlays = got[0].crud_config.overlays
+        cls = ku.outcome_class(overlays)
+        if cls == "ok":
+            mine_missing = None
+        elif cls == "permFail" and "expected the following inputs" in (overlays.message or ""):
+            mine_missing = sorted(re.findall(r'"([^"]*)"', overlays.message.split("expected the following inputs", 1)[1]))
+        else:
+            ck.count(f"overlay-inputs:other-{cls}")
+            continue
+        mine_needed = sorted({"<None>" if m.group("name") is None else m.group("name")
+                              for m in (INPUTS_NAME_PATTERN.match(k) for k in keys) if m})
+        ck.count("overlay-inputs:" + ("complete" if mine_missing is None else
+                                      "None-name-missing" if "None" in mine_missing else "missing"))
+        ck.nontriv(hash(json.dumps([keys, sorted(provided)])))
+        reqs.append({"op": "overlayInputs", "keys": keys, "provided": provided})
+        keep.append((vf_spec, spec, mine_needed, mine_missing))
+    answers = c14.ask(ck, drv, reqs)
+    for (vf_spec, spec, mine_needed, mine_missing), ans in zip(keep, answers):
+        if ans is None:
+            continue
+        m_needed = sorted({"<None>" if x is None else x for x in ans.get("needed", [])})
+        m_missing = None if ans.get("missing") is None else sorted(x.strip('"') for x in ans["missing"])
+        if "raise" in ans or m_needed != mine_needed or m_missing != mine_missing:
+            ck.disagree({"kind": "overlay-inputs", "vf": vf_spec, "rf": spec}, [m_needed, m_missing, ans.get("raise")],
+                        [mine_needed, mine_missing], "overlayRef-missing-inputs")
+
+
 # --------------------------------------------------------------------------- corpus / replay
 
 def replay_case(case) -> str | None:
@@ -1045,6 +1113,7 @@ def run(tier: str) -> int:
     ck.notes.append(f"spec stream: {time.time() - t0:.1f}s")
     t0 = time.time()
     run_sequences(ck, drv, 800 if quick else 12000, r)
+    run_overlay_inputs(ck, drv, 150 if quick else 3000, r)
     ck.notes.append(f"sequence stream: {time.time() - t0:.1f}s")
     return ck.finish(
         rule="expression stream: random CEL expressions of every syntactic shape (incl. index / call / member on "
